@@ -732,6 +732,9 @@ func callIndexOf(p *Prog) *callIndex {
 	}
 	ci := &callIndex{callers: map[*ssa.Function][]Ref{}, asValue: map[*ssa.Function]bool{}}
 	for _, fn := range p.ModFuncs {
+		if fn.Synthetic != "" && !strings.Contains(fn.Synthetic, "bound method wrapper") {
+			continue // pointer-receiver and interface wrappers generated by go/ssa are not callers of their own
+		}
 		eachInstr(fn, func(in ssa.Instruction) {
 			var direct *ssa.Function
 			if c, ok := in.(ssa.CallInstruction); ok && !c.Common().IsInvoke() {
